@@ -4,7 +4,7 @@ import (
 	"github.com/tonistiigi/fsutil/zz_verif/v"
 )
 
-func noSlash(s string) bool {
+func vh_noSlash(s string) bool {
 	for i := 0; i < len(s); i++ {
 		if s[i] == '/' {
 			return false
@@ -22,7 +22,7 @@ func VH_C09_order_lemma() {
 	d := v.String("d", v.Choose("ld", nd+1))
 	x := v.String("x", v.Choose("lx", nn)+1)
 	y := v.String("y", v.Choose("ly", nn)+1)
-	v.Assume(noSlash(x) && noSlash(y) && x < y)
+	v.Assume(vh_noSlash(x) && vh_noSlash(y) && x < y)
 	pre := ""
 	if d != "" {
 		v.Assume(d[len(d)-1] != '/')
@@ -36,7 +36,7 @@ func VH_C09_order_lemma() {
 		py += "/" + v.String("ty", 1)
 	}
 	c := ComparePath(px, py)
-	v.Observe("cmp", sign(c))
+	v.Observe("cmp", vh_sign(c))
 	v.Assert(c < 0, "entries below the smaller sibling sort before entries below the larger sibling")
 	v.Assert(ComparePath(pre+x, pre+x+"/"+v.String("child", 1)) < 0, "a directory sorts before its contents")
 	v.Cover("done")
